@@ -57,6 +57,7 @@ type Event struct {
 	Verb   string // create | update | update/status | delete
 	Time   time.Time
 	Task   int // id of the reconcile that issued the call (0: none)
+	Force  bool
 }
 
 // FaultKind is what the scheduler decided for one call.
@@ -152,7 +153,7 @@ func roundTrip(k Kind, o runtime.Object) runtime.Object {
 }
 
 func (a *API) emit(k Kind, t EventType, old, obj runtime.Object, c *Call) {
-	ev := Event{Seq: len(a.Log), Kind: k, Type: t, Object: obj.DeepCopyObject(), Actor: c.Actor, Verb: c.Verb, Time: a.Now(), Task: c.Task}
+	ev := Event{Seq: len(a.Log), Kind: k, Type: t, Object: obj.DeepCopyObject(), Actor: c.Actor, Verb: c.Verb, Time: a.Now(), Task: c.Task, Force: c.Force}
 	if old != nil {
 		ev.Old = old.DeepCopyObject()
 	}
@@ -400,7 +401,10 @@ func (a *API) Delete(c *Call, opts metav1.DeleteOptions) error {
 	}
 	cm, _ := meta.Accessor(cur)
 	if p := opts.Preconditions; p != nil && p.UID != nil && *p.UID != cm.GetUID() {
-		return kerrors.NewConflict(groupRes[c.Kind], c.Name, fmt.Errorf("uid precondition failed"))
+		return kerrors.NewConflict(groupRes[c.Kind], c.Name, fmt.Errorf("Precondition failed: UID in precondition: %v, UID in object meta: %v", *p.UID, cm.GetUID()))
+	}
+	if p := opts.Preconditions; p != nil && p.ResourceVersion != nil && *p.ResourceVersion != cm.GetResourceVersion() {
+		return kerrors.NewConflict(groupRes[c.Kind], c.Name, fmt.Errorf("Precondition failed: ResourceVersion in precondition: %v, ResourceVersion in object meta: %v", *p.ResourceVersion, cm.GetResourceVersion()))
 	}
 	next := cur.DeepCopyObject()
 	nm, _ := meta.Accessor(next)
